@@ -41,6 +41,13 @@ class Check:
         self.extra = {}
         self._known = [k for k in load_known().get("findings", []) if k.get("property") == prop]
         self._nreplay = 0
+        # replay files of an earlier run of this check are stale
+        import glob
+        for f in glob.glob(os.path.join(BUILD, "replays", "%s-%s-*.json" % (prop, tier))):
+            try:
+                os.unlink(f)
+            except OSError:
+                pass
 
     # ---- coverage bookkeeping
     def add_model(self, name, res, constants, what=""):
